@@ -550,6 +550,20 @@ func c13AddProbes(l *c13Level, first, last []byte) {
 		add(append(bytes.Clone(last), 0x00))
 		add(append(bytes.Clone(first), first[n-1]))
 	}
+	if n > 1 && !bytes.Equal(first[:n-1], last[:n-1]) {
+		// a rectangle, not an interval: codes between first and last in
+		// lexicographic order whose last byte is outside its span
+		if last[n-1] < 0xFF {
+			p := bytes.Clone(first)
+			p[n-1] = last[n-1] + 1
+			add(p)
+		}
+		if first[n-1] > 0 {
+			p := bytes.Clone(last)
+			p[n-1] = first[n-1] - 1
+			add(p)
+		}
+	}
 }
 
 // c13FillSetMapping fills the maps of a level which will be built with
@@ -756,6 +770,15 @@ func c13FillNotdef(c *kit.Case, l *c13Level) {
 			j := len(first) - 1
 			first[j] -= byte(rng.Intn(min(int(first[j]), 8) + 1))
 			last[j] += byte(rng.Intn(min(255-int(last[j]), 8) + 1))
+			if j > 0 && rng.Chance(1, 3) {
+				// a rectangular range: an earlier byte varies, too
+				j = rng.Intn(j)
+				first[j] = byte(rng.Range(min(int(first[j]), max(int(r.lo[j]), int(first[j])-3)), int(first[j])))
+				last[j] = byte(rng.Range(int(last[j]), max(int(last[j]), min(int(r.hi[j]), int(last[j])+3))))
+				if first[j] < last[j] {
+					c.Inc("notdef_rectangular_ranges")
+				}
+			}
 		}
 		q := c13Rect{first: first, last: last, val: uint32(rng.Range(1, 9))}
 		ok := true
@@ -768,6 +791,7 @@ func c13FillNotdef(c *kit.Case, l *c13Level) {
 			continue
 		}
 		taken = append(taken, q)
+		c13AddProbes(l, first, last)
 		if single {
 			l.ndS[string(first)] = q.val
 		} else {
